@@ -519,10 +519,18 @@ func (c *sclient) call(kind string, m int) error {
 }
 
 func (c *sclient) Deploy(_ context.Context, lid mtypes.LeaseID, g *manifest.Group) error {
+	if !lid.Equals(c.w.lease) { // not this lease's operation: never counts as its deploy
+		c.w.record(raw{Th: "X", K: "foreign_call", C: "Deploy", R: lid.String()})
+		return nil
+	}
 	return c.call("Deploy", manifestID(g))
 }
 
 func (c *sclient) TeardownLease(_ context.Context, lid mtypes.LeaseID) error {
+	if !lid.Equals(c.w.lease) { // tearing down some other lease is not the teardown C14 asks for
+		c.w.record(raw{Th: "X", K: "foreign_call", C: "Teardown", R: lid.String()})
+		return nil
+	}
 	return c.call("Teardown", 0)
 }
 
